@@ -9,8 +9,11 @@ PACKED = "(xtl::buffer|xtl::store_size)"
 STRLEN = "xtl::buffer"
 FIELD = "64"
 
-# name: (CT, N, ST, throwing, large)
+# name: (CT, N, ST, throwing, large[, second character of the alphabet])
 INSTS = {
+    "P3h-t":  ("char", 3, PACKED, 1, 0, "'\\x80'"),
+    "S3h-t":  ("char", 3, STRLEN, 1, 0, "'\\x80'"),
+    "F3h":    ("char", 3, FIELD, 0, 0, "'\\xff'"),
     "P3c":    ("char", 3, PACKED, 0, 0),
     "P3c-t":  ("char", 3, PACKED, 1, 0),
     "P3u-t":  ("char16_t", 3, PACKED, 1, 0),
@@ -31,8 +34,10 @@ INSTS = {
 
 
 def build(name, san="asan", opt="-O1"):
-    ct, n, st, thr, large = INSTS[name]
+    ct, n, st, thr, large = INSTS[name][:5]
     defs = ['CFG_NAME="%s"' % name, "CFG_CT=%s" % ct, "CFG_N=%d" % n, "CFG_ST=%s" % st, "CFG_THROW=%d" % thr, "CFG_LARGE=%d" % large]
+    if len(INSTS[name]) > 5:
+        defs.append("CFG_CH2=%s" % INSTS[name][5])
     return vlib.compile_cxx(SRC, "c01-" + name.replace("/", "_"), std="c++14", opt=opt, san=san, defines=defs)
 
 
@@ -42,14 +47,14 @@ def plan(tier, which):
         base = [("P3c-t", [], "asan", "-O1"), ("F3-t", [], "asan", "-O1"), ("S3-t", [], "asan", "-O1"), ("P3u-t", [], "asan", "-O1")]
         return base
     if tier == "quick":
-        small = ["P3c", "P3c-t", "P3u-t", "F3", "F3-t", "S3", "S3-t"]
+        small = ["P3c", "P3c-t", "P3u-t", "F3", "F3-t", "S3", "S3-t", "P3h-t", "S3h-t"]
         if which == "C02":
-            small = ["P3c-t", "P3u-t", "F3-t", "S3-t", "P3c", "S3"]
+            small = ["P3c-t", "P3u-t", "F3-t", "S3-t", "P3c", "S3", "P3h-t"]
         pl = [(n, [], "asan", "-O1") for n in small]
         pl += [("P200-t", ["--depth", "2", "--max-states", "3000"], "asan", "-O1"),
                ("F256-t", ["--depth", "2", "--max-states", "3000"], "asan", "-O1")]
         return pl
-    small = ["P3c", "P3c-t", "P3u-t", "F3", "F3-t", "S3", "S3-t"]
+    small = ["P3c", "P3c-t", "P3u-t", "F3", "F3-t", "S3", "S3-t", "P3h-t", "S3h-t", "F3h"]
     pl = [(n, [], "asan", "-O1") for n in small]
     pl += [(n, [], "none", "-O2") for n in ["P4c-t", "F4-t", "S4-t", "S4", "P4u"]]
     pl += [("P200-t", ["--depth", "3", "--max-states", "40000"], "none", "-O2"),
